@@ -1,5 +1,6 @@
 import OvniModel.Props.C13
 import OvniModel.Lemmas.PvRegs
+import OvniModel.Lemmas.PvPcfRt
 
 /-!
 # C13, text level — the Paraver files as text
@@ -9,7 +10,7 @@ Model: `Emu/PvText.lean` (the text `prv.c`, `prf.c`, `pcf.c` print and what
 the PCFs) over `Emu/PvLines.lean` (the emulator with its whole patch bay: the
 lines `emit` writes, in file order).  `Props/C13.lean` states the property on
 records; here it is stated on the bytes of the files, read back by independent
-readers (`parsePrv`, `parseRow`, `pcfDeclared`).  The same functions print the
+readers (`parsePrv`, `parseRow`, `pcfDeclared`, `parsePcfTypes`).  The same functions print the
 files the check compares byte for byte with ovniemu's (`drv_emu`, `pvtext`).
 -/
 namespace Ovni.Props.C13Text
@@ -240,6 +241,96 @@ theorem files_wellformed {e : Emu} {n : Names} {x0 x : XEmu} {evs : List XEv} {f
   · cases hf
 end
 
+/-! ### (e) the event-type section of the `.pcf`: round trip, values labelled in the text -/
+
+/-- **Every `.pcf` text reads back**: for any structure (any ids, any values,
+    ids and values of any size, repeated or not, labels empty or with leading /
+    trailing blanks) whose labels contain no newline (`PcfWf`, the only
+    hypothesis — see `rt_fails_type_label`, `rt_fails_value_label`,
+    `rt_truncates_value_label` for what happens without it), the independent
+    reader `parsePcfTypes` (lines, `EVENT_TYPE` blocks, decimal numbers, the
+    padding of `%-10d` / `%-4d` stripped) returns exactly the types in order,
+    each with its id, its label and its (value, label) pairs in order.  The
+    default options and the colours are skipped (`pcfHead_no_event_type`). -/
+theorem pcf_roundtrip (p : Pcf) (h : PcfWf p) :
+    parsePcfTypes (pcfText p) = some (p.map fun t => (t.id, t.label, t.values)) :=
+  parsePcfTypes_pcfText p h
+
+/-- Two well-formed structures with the same text are equal. -/
+theorem pcfText_injective (p q : Pcf) (hp : PcfWf p) (hq : PcfWf q) (h : pcfText p = pcfText q) : p = q := by
+  have e := pcf_roundtrip p hp
+  rw [h, pcf_roundtrip q hq] at e
+  have finj : Function.Injective (fun t : PcfType => (t.id, t.label, t.values)) := by
+    intro a b hab
+    cases a; cases b
+    simp only [Prod.mk.injEq] at hab
+    obtain ⟨h1, h2, h3⟩ := hab
+    subst h1; subst h2; subst h3; rfl
+  exact ((List.map_inj_right (fun x y hxy => finj hxy)).mp (Option.some.inj e)).symm
+
+/-- **The text of thread.pcf and cpu.pcf of the model is readable**: the
+    structures the emulator builds are well formed whenever the labels that
+    come from the trace metadata (mark titles and labels, task type labels) have
+    no newline; every other label is a CPU name or comes from a fixed table. -/
+theorem emu_pcf_roundtrip {e : Emu} {n : Names} (hn : NamesWf n) :
+    (∀ p, threadPcf e n = .ok p → parsePcfTypes (pcfText p) = some (p.map fun t => (t.id, t.label, t.values))) ∧
+    (∀ p, cpuPcf e n = .ok p → parsePcfTypes (pcfText p) = some (p.map fun t => (t.id, t.label, t.values))) :=
+  ⟨fun p h => pcf_roundtrip p (threadPcf_wf hn h), fun p h => pcf_roundtrip p (cpuPcf_wf hn h)⟩
+
+/-- the thread-state codes are in the table of thread.c -/
+theorem thread_state_in_table :
+    ∀ v ∈ [ThState.unknown, .running, .paused, .dead, .cooling, .warming].map (fun s => (s.code : Int)),
+      ∃ x ∈ threadPcfTypes, x.1 = prvThreadState ∧ v ∈ x.2.2.map (·.1) := by decide
+
+/-- **State values are labelled in the text of thread.pcf.**  For the PCF the
+    emulator builds for any system, enabled models, marks and task types
+    (`threadPcf e n = .ok p`, labels of the metadata without newline), reading
+    the file text `pcfText p` back with the independent reader gives:
+    - under the thread-state type (4) a label for each of the six state codes —
+      exactly the set `records_values_labelled_ovni` shows every thread-state
+      record to carry (`thread_state_codes`: 0 … 5);
+    - under the CPU-affinity type (6) a label for `gindex + 1` of every CPU —
+      the non-zero values `records_values_labelled_ovni` shows the affinity
+      records to carry (0 = no CPU is Paraver's "no value");
+    - for every enabled model `s` and each of its channels `i`, a label under
+      the Paraver type of that channel for every value of the channel's label
+      table (`model_pvt_spec`). -/
+theorem pcf_values_labelled_text {e : Emu} {n : Names} {p : Pcf} (hn : NamesWf n) (h : threadPcf e n = .ok p) :
+    (∀ v ∈ [ThState.unknown, .running, .paused, .dead, .cooling, .warming].map (fun s => (s.code : Int)),
+      v ∈ pcfValuesOf (pcfText p) prvThreadState) ∧
+    (∀ g < e.cpus.length, ((g : Int) + 1) ∈ pcfValuesOf (pcfText p) prvThreadCpu) ∧
+    (∀ s ∈ connectOrder e.enabled e.extra, s.char ≠ markGroup → ∀ info, pcfInfo s.char = some info →
+      ∀ i < s.nch, ∀ v ∈ info.labels.getD i [], v.1 ∈ pcfValuesOf (pcfText p) (s.pvtType.getD i 0)) := by
+  have hwf := threadPcf_wf hn h
+  obtain ⟨a, b, c⟩ := threadPcf_hasVal h
+  refine ⟨?_, fun g hg => hasVal_text hwf (b g hg), fun s hs hne info hi i hlt v hv =>
+    hasVal_text hwf (c s hs hne info hi i hlt v hv)⟩
+  intro v hv
+  obtain ⟨x, hx, hty, hmem⟩ := thread_state_in_table v hv
+  obtain ⟨w, hw, rfl⟩ := List.mem_map.mp hmem
+  rw [← hty]
+  exact hasVal_text hwf (a x hx w hw)
+
+/-- **The initial and CPU-default values of the nOS-V and Nanos6 channels are
+    labelled in the text** (`init_values_labelled` at text level): when the
+    model is enabled, every value `model_*_connect` puts on channel `i` at
+    connect time or a CPU mux shows by default has a label under the type of
+    that channel in the text of thread.pcf. -/
+theorem init_values_labelled_text {e : Emu} {n : Names} {p : Pcf} (hn : NamesWf n) (h : threadPcf e n = .ok p)
+    {s : ModelSpec} (hs : s ∈ connectOrder e.enabled e.extra) (hsp : s = specNosv ∨ s = specNanos6) :
+    ∀ iv ∈ s.initVals ++ s.cpuDefault, iv.2 ∈ pcfValuesOf (pcfText p) (s.pvtType.getD iv.1 0) := by
+  have key : ∀ (info : PcfInfo), pcfInfo s.char = some info → s.char ≠ markGroup →
+      (∀ iv ∈ s.initVals ++ s.cpuDefault, iv.1 < s.nch ∧ iv.2 ∈ (info.labels.getD iv.1 []).map (·.1)) →
+      ∀ iv ∈ s.initVals ++ s.cpuDefault, iv.2 ∈ pcfValuesOf (pcfText p) (s.pvtType.getD iv.1 0) := by
+    intro info hi hne hall iv hiv
+    obtain ⟨hlt, hmem⟩ := hall iv hiv
+    obtain ⟨w, hw, hw2⟩ := List.mem_map.mp hmem
+    rw [← hw2]
+    exact (pcf_values_labelled_text hn h).2.2 s hs hne info hi iv.1 hlt w hw
+  rcases hsp with rfl | rfl
+  · exact key ⟨Nosv.pcfPrefix, Nosv.labels, Nosv.cpuPvtType⟩ rfl (by decide) (by decide)
+  · exact key ⟨Nanos6.pcfPrefix, Nanos6.labels, Nanos6.cpuPvtType⟩ rfl (by decide) (by decide)
+
 /-! ### Non-vacuity: a real trace
 
 One loom, one process (pid 100, application 3) with thread 10, CPU 0 and the
@@ -370,6 +461,39 @@ example : exFiles.map (fun f => bytesOf f.threadPcf) = some
 -/
 example : exFiles.map (fun f => bytesOf f.cpuPcf) = some
     [68, 69, 70, 65, 85, 76, 84, 95, 79, 80, 84, 73, 79, 78, 83, 10, 10, 76, 69, 86, 69, 76, 32, 32, 32, 32, 32, 32, 32, 32, 32, 32, 32, 32, 32, 32, 32, 84, 72, 82, 69, 65, 68, 10, 85, 78, 73, 84, 83, 32, 32, 32, 32, 32, 32, 32, 32, 32, 32, 32, 32, 32, 32, 32, 78, 65, 78, 79, 83, 69, 67, 10, 76, 79, 79, 75, 95, 66, 65, 67, 75, 32, 32, 32, 32, 32, 32, 32, 32, 32, 32, 32, 49, 48, 48, 10, 83, 80, 69, 69, 68, 32, 32, 32, 32, 32, 32, 32, 32, 32, 32, 32, 32, 32, 32, 32, 49, 10, 70, 76, 65, 71, 95, 73, 67, 79, 78, 83, 32, 32, 32, 32, 32, 32, 32, 32, 32, 32, 69, 78, 65, 66, 76, 69, 68, 10, 78, 85, 77, 95, 79, 70, 95, 83, 84, 65, 84, 69, 95, 67, 79, 76, 79, 82, 83, 32, 49, 48, 48, 48, 10, 89, 77, 65, 88, 95, 83, 67, 65, 76, 69, 32, 32, 32, 32, 32, 32, 32, 32, 32, 32, 51, 55, 10, 10, 10, 68, 69, 70, 65, 85, 76, 84, 95, 83, 69, 77, 65, 78, 84, 73, 67, 10, 10, 84, 72, 82, 69, 65, 68, 95, 70, 85, 78, 67, 32, 32, 32, 32, 32, 32, 32, 32, 32, 83, 116, 97, 116, 101, 32, 65, 115, 32, 73, 115, 10, 10, 10, 83, 84, 65, 84, 69, 83, 95, 67, 79, 76, 79, 82, 10, 48, 32, 32, 32, 123, 32, 32, 48, 44, 32, 32, 32, 48, 44, 32, 32, 32, 48, 125, 10, 49, 32, 32, 32, 123, 32, 32, 48, 44, 32, 49, 51, 48, 44, 32, 50, 48, 48, 125, 10, 50, 32, 32, 32, 123, 50, 49, 55, 44, 32, 50, 49, 55, 44, 32, 50, 49, 55, 125, 10, 51, 32, 32, 32, 123, 50, 51, 48, 44, 32, 32, 50, 53, 44, 32, 32, 55, 53, 125, 10, 52, 32, 32, 32, 123, 32, 54, 48, 44, 32, 49, 56, 48, 44, 32, 32, 55, 53, 125, 10, 53, 32, 32, 32, 123, 50, 53, 53, 44, 32, 50, 50, 53, 44, 32, 32, 50, 53, 125, 10, 54, 32, 32, 32, 123, 50, 52, 53, 44, 32, 49, 51, 48, 44, 32, 32, 52, 56, 125, 10, 55, 32, 32, 32, 123, 49, 52, 53, 44, 32, 32, 51, 48, 44, 32, 49, 56, 48, 125, 10, 56, 32, 32, 32, 123, 32, 55, 48, 44, 32, 50, 52, 48, 44, 32, 50, 52, 48, 125, 10, 57, 32, 32, 32, 123, 50, 52, 48, 44, 32, 32, 53, 48, 44, 32, 50, 51, 48, 125, 10, 49, 48, 32, 32, 123, 50, 49, 48, 44, 32, 50, 52, 53, 44, 32, 32, 54, 48, 125, 10, 49, 49, 32, 32, 123, 50, 53, 48, 44, 32, 49, 57, 48, 44, 32, 50, 49, 50, 125, 10, 49, 50, 32, 32, 123, 32, 32, 48, 44, 32, 49, 50, 56, 44, 32, 49, 50, 56, 125, 10, 49, 51, 32, 32, 123, 49, 50, 56, 44, 32, 49, 50, 56, 44, 32, 49, 50, 56, 125, 10, 49, 52, 32, 32, 123, 50, 50, 48, 44, 32, 49, 57, 48, 44, 32, 50, 53, 53, 125, 10, 49, 53, 32, 32, 123, 49, 55, 48, 44, 32, 49, 49, 48, 44, 32, 32, 52, 48, 125, 10, 49, 54, 32, 32, 123, 50, 53, 53, 44, 32, 50, 53, 48, 44, 32, 50, 48, 48, 125, 10, 49, 55, 32, 32, 123, 49, 50, 56, 44, 32, 32, 32, 48, 44, 32, 32, 32, 48, 125, 10, 49, 56, 32, 32, 123, 49, 55, 48, 44, 32, 50, 53, 53, 44, 32, 49, 57, 53, 125, 10, 49, 57, 32, 32, 123, 49, 50, 56, 44, 32, 49, 50, 56, 44, 32, 32, 32, 48, 125, 10, 50, 48, 32, 32, 123, 50, 53, 53, 44, 32, 50, 49, 53, 44, 32, 49, 56, 48, 125, 10, 50, 49, 32, 32, 123, 32, 32, 48, 44, 32, 32, 32, 48, 44, 32, 49, 50, 56, 125, 10, 50, 50, 32, 32, 123, 32, 32, 48, 44, 32, 32, 32, 48, 44, 32, 50, 53, 53, 125, 10, 10, 10, 69, 86, 69, 78, 84, 95, 84, 89, 80, 69, 10, 48, 32, 51, 32, 32, 32, 32, 32, 32, 32, 32, 32, 32, 67, 80, 85, 58, 32, 78, 117, 109, 98, 101, 114, 32, 111, 102, 32, 82, 85, 78, 78, 73, 78, 71, 32, 116, 104, 114, 101, 97, 100, 115, 10, 86, 65, 76, 85, 69, 83, 10, 10, 10, 69, 86, 69, 78, 84, 95, 84, 89, 80, 69, 10, 48, 32, 49, 32, 32, 32, 32, 32, 32, 32, 32, 32, 32, 67, 80, 85, 58, 32, 80, 73, 68, 32, 111, 102, 32, 116, 104, 101, 32, 82, 85, 78, 78, 73, 78, 71, 32, 116, 104, 114, 101, 97, 100, 10, 86, 65, 76, 85, 69, 83, 10, 10, 10, 69, 86, 69, 78, 84, 95, 84, 89, 80, 69, 10, 48, 32, 50, 32, 32, 32, 32, 32, 32, 32, 32, 32, 32, 67, 80, 85, 58, 32, 84, 73, 68, 32, 111, 102, 32, 116, 104, 101, 32, 82, 85, 78, 78, 73, 78, 71, 32, 116, 104, 114, 101, 97, 100, 10, 86, 65, 76, 85, 69, 83, 10, 10, 10, 69, 86, 69, 78, 84, 95, 84, 89, 80, 69, 10, 48, 32, 55, 32, 32, 32, 32, 32, 32, 32, 32, 32, 32, 70, 108, 117, 115, 104, 105, 110, 103, 32, 111, 118, 110, 105, 32, 98, 117, 102, 102, 101, 114, 32, 111, 102, 32, 116, 104, 101, 32, 82, 85, 78, 78, 73, 78, 71, 32, 116, 104, 114, 101, 97, 100, 10, 86, 65, 76, 85, 69, 83, 10, 49, 32, 32, 32, 32, 70, 108, 117, 115, 104, 105, 110, 103, 10] := by decide +kernel
+
+/-! the event types read back from the two `.pcf` texts above by `parsePcfTypes`
+    (labels as byte lists), and the values the texts label -/
+
+/-- a block with its labels as bytes -/
+abbrev BlockBytes := Nat × List Nat × List (Int × List Nat)
+instance : DecidableEq BlockBytes := inferInstanceAs (DecidableEq (Nat × List Nat × List (Int × List Nat)))
+def blockBytes (b : PcfBlock) : BlockBytes :=
+  (b.1, bytesOf b.2.1, b.2.2.map fun v => (v.1, bytesOf v.2))
+
+example : exFiles.map (fun f => (parsePcfTypes f.threadPcf).map (·.map blockBytes)) = some (some
+    [(6, [84, 104, 114, 101, 97, 100, 58, 32, 67, 80, 85, 32, 97, 102, 102, 105, 110, 105, 116, 121],
+       [(1, [32, 67, 80, 85, 32, 48, 46, 48]), (2, [118, 67, 80, 85, 32, 48, 46, 42])]),
+     (2, [84, 104, 114, 101, 97, 100, 58, 32, 84, 73, 68, 32, 111, 102, 32, 116, 104, 101, 32, 65, 67, 84, 73, 86, 69, 32, 116, 104, 114, 101, 97, 100], []),
+     (4, [84, 104, 114, 101, 97, 100, 58, 32, 116, 104, 114, 101, 97, 100, 32, 115, 116, 97, 116, 101],
+       [(0, [85, 110, 107, 110, 111, 119, 110]), (1, [82, 117, 110, 110, 105, 110, 103]), (2, [80, 97, 117, 115, 101, 100]),
+        (3, [68, 101, 97, 100]), (4, [67, 111, 111, 108, 105, 110, 103]), (5, [87, 97, 114, 109, 105, 110, 103])]),
+     (7, [70, 108, 117, 115, 104, 105, 110, 103, 32, 111, 118, 110, 105, 32, 98, 117, 102, 102, 101, 114, 32],
+       [(1, [70, 108, 117, 115, 104, 105, 110, 103])])]) := by decide +kernel
+
+example : exFiles.map (fun f => pcfValuesOf f.threadPcf prvThreadState) = some [0, 1, 2, 3, 4, 5] := by decide +kernel
+example : exFiles.map (fun f => pcfValuesOf f.threadPcf prvThreadCpu) = some [1, 2] := by decide +kernel
+example : exFiles.map (fun f => pcfValuesOf f.threadPcf 7) = some [1] := by decide +kernel
+example : exFiles.map (fun f => pcfValuesOf f.threadPcf 5) = some [] := by decide +kernel
+example : exFiles.map (fun f => (parsePcfTypes f.cpuPcf).map (·.map fun b => (b.1, b.2.2.map (·.1)))) =
+    some (some [(3, []), (1, []), (2, []), (7, [1])]) := by decide +kernel
+/-- every value of the thread-state and affinity records of thread.prv above
+    (type 4: values 1 and 3; type 6: value 1, and 0 = "no CPU", which Paraver does
+    not label) is labelled in the text of thread.pcf -/
+example : exFiles.map (fun f => (parsePrv f.threadPrv).map fun r =>
+    (r.2.filter fun l => l.2.2.1 == 4 || (l.2.2.1 == 6 && l.2.2.2 != 0)).all fun l =>
+      (pcfValuesOf f.threadPcf l.2.2.1).contains l.2.2.2) = some (some true) := by decide +kernel
+example : NamesWf exNames := by decide
 
 example : exRun.map (fun x => (x.th.time, x.cpu.time, x.th.lines.length)) = some (10, 10, 8) := by decide +kernel
 example : exEmu.extra = markExtra exNames.marks := rfl
